@@ -16,13 +16,14 @@ use kolibrie::rsp_engine::verif_hooks;
 use kolibrie::rsp_engine::{OperationMode, QueryExecutionMode, RSPBuilder, RSPEngine, ResultConsumer, SimpleR2R};
 use serde_json::{json, Value};
 use shared::triple::Triple;
-use std::sync::atomic::{AtomicBool, Ordering};
+use std::sync::atomic::{AtomicBool, AtomicUsize, Ordering};
 use std::sync::{Arc, Mutex};
 use std::time::{Duration, Instant};
 
 type Row = Vec<(String, String)>;
 static PANICKED: AtomicBool = AtomicBool::new(false);
 
+#[derive(Clone)]
 struct Ev {
     nt: String,
     id: u64,
@@ -95,6 +96,28 @@ fn rows_json(rows: Vec<Row>) -> Value {
     json!(rs)
 }
 
+/// set once a run did not come back within its deadline: the thread (and its engine) is left behind, the hook
+/// counters are no longer reliable, so the remaining cases of this process are not run
+static ABORTED: AtomicBool = AtomicBool::new(false);
+
+/// Run `f` on its own thread and wait for it at most `ms` milliseconds.  A (mutated) engine that blocks the calling
+/// thread - a blocking send on a full bounded queue, a lock that is never released - cannot hang the driver: on
+/// expiry every hold is released, None is returned and the thread is left behind.
+fn with_deadline<T: Send + 'static>(ms: u64, f: impl FnOnce() -> T + Send + 'static) -> Option<T> {
+    let (tx, rx) = std::sync::mpsc::channel();
+    std::thread::spawn(move || {
+        let _ = tx.send(f());
+    });
+    match rx.recv_timeout(Duration::from_millis(ms)) {
+        Ok(v) => Some(v),
+        Err(_) => {
+            verif_hooks::hold_sites(0);
+            ABORTED.store(true, Ordering::SeqCst);
+            None
+        }
+    }
+}
+
 fn run_single(case: &Value, evs: &[Ev], stop: bool) -> Result<Value, String> {
     verif_hooks::reset();
     verif_hooks::set_schedule_seed(0);
@@ -147,7 +170,36 @@ fn run_multi(case: &Value, evs: &[Ev], stop: bool, expected: usize, seed: u64, t
     };
     let stream = case["stream"].as_str();
     let mut prod = seed ^ 0x5151_5151;
+    // The hold must not outlive the producer's ability to make progress: if the engine applies back-pressure (a
+    // bounded queue with a blocking send) the producer stops while the worker is held.  A watchdog releases the hold
+    // when no event has been pushed for `stall_ms`; the schedule is then "the worker lags as long as the producer can
+    // run", which every engine must survive with the same emitted sequence.
+    let progress = Arc::new(AtomicUsize::new(0));
+    let feeding_done = Arc::new(AtomicBool::new(false));
+    let released_by_watchdog = Arc::new(AtomicBool::new(false));
+    if lag_from.is_some() {
+        let (pr, dn, rl) = (Arc::clone(&progress), Arc::clone(&feeding_done), Arc::clone(&released_by_watchdog));
+        let stall_ms: u64 = std::env::var("VERIF_HOLD_STALL_MS").ok().and_then(|v| v.parse().ok()).unwrap_or(2_000);
+        std::thread::spawn(move || {
+            let (mut last, mut since) = (pr.load(Ordering::SeqCst), Instant::now());
+            while !dn.load(Ordering::SeqCst) {
+                std::thread::sleep(Duration::from_millis(5));
+                let p = pr.load(Ordering::SeqCst);
+                if p != last {
+                    last = p;
+                    since = Instant::now();
+                } else if since.elapsed() > Duration::from_millis(stall_ms) {
+                    if !dn.load(Ordering::SeqCst) {
+                        verif_hooks::hold_sites(0);
+                        rl.store(true, Ordering::SeqCst);
+                    }
+                    break;
+                }
+            }
+        });
+    }
     for (k, e) in evs.iter().enumerate() {
+        progress.store(k + 1, Ordering::SeqCst);
         if lag_from == Some(k) {
             verif_hooks::hold_sites(WORKER_SITES);
         }
@@ -170,11 +222,14 @@ fn run_multi(case: &Value, evs: &[Ev], stop: bool, expected: usize, seed: u64, t
             }
         }
     }
+    // every event has been pushed: release a held worker BEFORE stop() - the flush may use a blocking send, and a
+    // worker that is held forever would then block the producer forever
+    feeding_done.store(true, Ordering::SeqCst);
+    let queued_at_release = expected.saturating_sub(verif_hooks::firings_processed());
+    verif_hooks::hold_sites(0);
     if stop {
         engine.stop();
     }
-    let queued_at_release = expected.saturating_sub(verif_hooks::firings_processed());
-    verif_hooks::hold_sites(0); // release a held worker: everything has been pushed
     // Quiescence without sleeping on a guess: dropping the engine drops the window and with it the sender
     // of the content channel; the detached worker drains what was sent, leaves its loop and the hook counts
     // the exit.  From then on the processed-firings counter and the sink are final.
@@ -203,7 +258,8 @@ fn run_multi(case: &Value, evs: &[Ev], stop: bool, expected: usize, seed: u64, t
         }
     }
     let panicked = PANICKED.swap(false, Ordering::SeqCst);
-    Ok(json!({"seed": seed, "lag_from": lag_from, "queued_at_release": queued_at_release, "firings": firings.into_iter().map(rows_json).collect::<Vec<_>>(), "processed": processed,
+    Ok(json!({"seed": seed, "lag_from": lag_from, "queued_at_release": queued_at_release,
+              "hold_released_by_watchdog": released_by_watchdog.load(Ordering::SeqCst), "firings": firings.into_iter().map(rows_json).collect::<Vec<_>>(), "processed": processed,
               "late": late, "timeout": timed_out, "worker_panicked": panicked}))
 }
 
@@ -220,19 +276,29 @@ fn main() {
         let evs = events(case);
         let contents = probe(w, s, &evs, stop);
         let expected = contents.len();
-        let st = match vharness::catch(std::panic::AssertUnwindSafe(|| run_single(case, &evs, stop))) {
-            Ok(Ok(v)) => v,
-            Ok(Err(e)) => return json!({"build_error": e}),
-            Err(m) => return json!({"panic": m, "where": "single-thread"}),
+        if ABORTED.load(Ordering::SeqCst) {
+            return json!({"blocked": true, "where": "not run: an earlier run of this driver process did not come back"});
+        }
+        let run_deadline_ms = 2 * timeout_ms;
+        let (c1, e1) = (case.clone(), evs.clone());
+        let st = match with_deadline(run_deadline_ms, move || vharness::catch(std::panic::AssertUnwindSafe(|| run_single(&c1, &e1, stop)))) {
+            Some(Ok(Ok(v))) => v,
+            Some(Ok(Err(e))) => return json!({"build_error": e}),
+            Some(Err(m)) => return json!({"panic": m, "where": "single-thread"}),
+            None => return json!({"blocked": true, "where": "single-thread run did not come back within the deadline"}),
         };
         PANICKED.store(false, Ordering::SeqCst);
         let mut mt: Vec<Value> = Vec::new();
         for sd in case["seeds"].as_array().cloned().unwrap_or_default() {
             let seed = sd.as_u64().unwrap();
-            match vharness::catch(std::panic::AssertUnwindSafe(|| run_multi(case, &evs, stop, expected, seed, timeout_ms))) {
-                Ok(Ok(v)) => mt.push(v),
-                Ok(Err(e)) => return json!({"build_error": e}),
-                Err(m) => return json!({"panic": m, "where": "multi-thread"}),
+            let (c1, e1) = (case.clone(), evs.clone());
+            match with_deadline(run_deadline_ms, move || {
+                vharness::catch(std::panic::AssertUnwindSafe(|| run_multi(&c1, &e1, stop, expected, seed, timeout_ms)))
+            }) {
+                Some(Ok(Ok(v))) => mt.push(v),
+                Some(Ok(Err(e))) => return json!({"build_error": e}),
+                Some(Err(m)) => return json!({"panic": m, "where": "multi-thread"}),
+                None => return json!({"blocked": true, "where": format!("multi-thread run (seed {}) did not come back within the deadline", seed)}),
             }
         }
         verif_hooks::set_schedule_seed(0);
